@@ -109,6 +109,20 @@ def checkNew (st : Repo) (new : List Rev) : Bool :=
     | none => false
     | some inv => inv.all fun e => decide (e ∈ parentOnlyEntries st new) || (get st.texts e.key).isSome
 
+/-! ### pack / autopack -/
+
+/-- one record per key, the first one (what lookups returned before) -/
+def dedupKeys {α β : Type} [DecidableEq α] : List (α × β) → List (α × β)
+  | [] => []
+  | (k, v) :: rest => (k, v) :: (dedupKeys rest).filter fun kv => !decide (kv.1 = k)
+
+/-- `Repository.pack()` / autopack: the packs are rewritten into one; every key keeps
+its record (a repack must not drop anything, in particular not the inventories that
+have no revision in this repository) -/
+def packRepo (r : Repo) : Repo := ⟨dedupKeys r.revs, dedupKeys r.invs, dedupKeys r.texts⟩
+
+def pack (s : Stacked) : Stacked := { s with st := packRepo s.st }
+
 /-! ### hypotheses -/
 
 /-- every locally stored inventory belongs to a revision of the stack or of the fallback -/
